@@ -689,7 +689,7 @@ fn main() {
         typed::check_word(w, ctx)
     }));
     let meta = Meta {
-        rule: "protocol machine (driver x input back end x output container x out-path x len x w): the stateful callback records (call#, arguments); the recorded trace must conform event by event to the explicit model: len calls, position i gets the new element(s) at i, the element/index at i-w+1 when i>=w-1, 'nothing' when i<min(w,len)-1, unconstrained when w>len and i=len-1; slice forms get exactly x[max(0,i-w+1)..=i]; out[i] = result of call i. Elements 10+i / 100+i are distinct so identity is observable. Non-trivial = distinct (driver, back end, output, path, len, w) runs. Configuration families (DESIGN 5.15, 5.16): every driver writing into caller buffers in non-canonical layouts (wrapped rings, strided / reversed views: path BufAlt); unbounded windows usize::MAX, usize::MAX-1, 2^63+1, 2^63, 2^63-1, 2^32+1 for lengths <= 3. Round 8 (DESIGN 5.17): typed-column-slices - rolling_custom / rolling_custom_iter / rolling_custom_to on the Polars String, Int64, Float32 and Boolean columns under every chunking, every word over {null,1,2}, every window 1..=len+2. Round 9 (DESIGN 5.18): the two-series drivers also run with a second series two elements longer than the first (lengths <= 4): the output has the length of the first series.".into(),
+        rule: "protocol machine (driver x input back end x output container x out-path x len x w): the stateful callback records (call#, arguments); the recorded trace must conform event by event to the explicit model: len calls, position i gets the new element(s) at i, the element/index at i-w+1 when i>=w-1, 'nothing' when i<min(w,len)-1, unconstrained when w>len and i=len-1; slice forms get exactly x[max(0,i-w+1)..=i]; out[i] = result of call i. Elements 10+i / 100+i are distinct so identity is observable. Non-trivial = distinct (driver, back end, output, path, len, w) runs. Configuration families (DESIGN 5.15, 5.16): every driver writing into caller buffers in non-canonical layouts (wrapped rings, strided / reversed views: path BufAlt); unbounded windows usize::MAX, usize::MAX-1, 2^63+1, 2^63, 2^63-1, 2^32+1 for lengths <= 3. Round 8 (DESIGN 5.17): typed-column-slices - rolling_custom / rolling_custom_iter / rolling_custom_to on the Polars String, Int64, Float32 and Boolean columns under every chunking, every word over {null,1,2}, every window 1..=len+2. Round 9 (DESIGN 5.18): the two-series drivers also run with a second series two elements longer than the first (lengths <= 4): the output has the length of the first series. Round 10 (DESIGN 5.19): the Option<f64> series with every placement of nulls (lengths <= 4): a null is handed to the callback like any other element - as the new one, as the one that leaves, inside a slice.".into(),
         bounds: json!({"len": format!("0..={max_len}, and the long lengths {:?} on a reduced back-end set with windows 1, 2, 15..17, 31..33, 127..129, 255..257, len-1..len+3", &lens[max_len + 1..]), "w": "1..=len+3", "drivers": DRIVERS.iter().map(|d| format!("{d:?}")).collect::<Vec<_>>(),
             "input_backends": "Vec, Arc<Vec>, [T;N], VecDeque x 8 head offsets, Array1, ArrayView1 steps {1,2,3,-1,-2}, ArrayViewMut1, Arc<Array1> (elements i32 and Option<f64>), OptIter<Vec<f64>>, OptIter<Array1<f64>>, Float64Chunked/&Float64Chunked under every chunking into <=3 chunks",
             "outputs": "Vec, VecDeque, Array1, Int32Chunked (returned and caller buffer)"}),
